@@ -170,7 +170,14 @@ class EYAMLProcessor(Processor):
                 input=bval,
                 check=True,
                 shell=False
-            ).stdout.decode('ascii').rstrip()
+            ).stdout.decode('ascii')
+
+            # Drop only the line terminator the command appends to its
+            # output; any other trailing white-space belongs to the secret.
+            if retval.endswith("\r\n"):
+                retval = retval[:-2]
+            elif retval.endswith("\n"):
+                retval = retval[:-1]
         except CalledProcessError as ex:
             raise EYAMLCommandException(
                 f"The {self.eyaml} command cannot be run due to exit code:"
